@@ -26,10 +26,12 @@ structure Row where
   id : Nat
 deriving DecidableEq, Repr
 
-/-- Persistent state of one topic. -/
+/-- Persistent state of one topic: its operation rows, its cursor row and the authors whose log is associated
+    with the topic (`topics_v1`; `TopicStore::resolve` — the replay only looks at associated logs). -/
 structure Persist where
   rows : List Row
   cursor : Heights Nat
+  assoc : List Nat
 
 /-- `get_log_heights`: latest seq per author (first-appearance order of the authors). -/
 def heightsOf (rows : List Row) : Heights Nat :=
@@ -54,8 +56,11 @@ def sortBySeq : List Row → List Row
 def entries (rows : List Row) (a : Nat) (rg : Range) : List Row :=
   sortBySeq (rows.filter fun r => decide (r.author = a) && inRange rg r.seq)
 
+/-- Rows of logs the topic knows about (`store.resolve(topic)` followed by `get_log_heights`). -/
+def visibleRows (p : Persist) : List Row := p.rows.filter fun r => p.assoc.contains r.author
+
 /-- `nacked_log_ranges(StreamFrom::Frontier)`. -/
-def nacked (p : Persist) : Ranges Nat := compare (heightsOf p.rows) p.cursor
+def nacked (p : Persist) : Ranges Nat := compare (heightsOf (visibleRows p)) p.cursor
 
 /-- Rows handed to the application by the replay (`StreamEvent::Processed`), in order. -/
 def deliveredRows (p : Persist) : List Row :=
@@ -77,18 +82,30 @@ structure St where
   inPipeline : List Nat
   handed : List Nat
 
+/-- Every constructor except `crash` is ONE committed store transaction (or a volatile step). -/
 inductive Op
-  | insert (r : Row)        -- store commit of a published / imported operation (forge, ingest)
+  | insert (r : Row)        -- forge / ingest: operation row AND topic association in one transaction (the code)
+  | insertRow (r : Row)     -- split variant only: the operation row is committed on its own …
+  | associate (a : Nat)     -- … and the topic association in a second transaction
   | process (i : Nat)       -- the pipeline finished an operation, it is handed to the application
   | ack (a : Nat) (h : Nat) -- `Acked::ack` (automatic, explicit or body-less)
   | crash                   -- abort: volatile state is gone, the SQLite file stays
 
 def step (s : St) : Op → St
-  | .insert r => { s with p := { s.p with rows := s.p.rows ++ [r] }, inPipeline := s.inPipeline ++ [r.id] }
+  | .insert r => { s with p := { s.p with rows := s.p.rows ++ [r], assoc := r.author :: s.p.assoc },
+                            inPipeline := s.inPipeline ++ [r.id] }
+  | .insertRow r => { s with p := { s.p with rows := s.p.rows ++ [r] } }
+  | .associate a => { s with p := { s.p with assoc := a :: s.p.assoc } }
   | .process i => { s with inPipeline := s.inPipeline.erase i, handed := s.handed ++ [i] }
   | .ack a h => { s with p := { s.p with cursor := advance s.p.cursor a h } }
   | .crash => { s with inPipeline := [], handed := [] }
 
 def runOps (s : St) (ops : List Op) : St := ops.foldl step s
+
+/-- The operations the code performs: insert and association are never separate transactions. -/
+def Op.atomic : Op → Bool
+  | .insertRow _ => false
+  | .associate _ => false
+  | _ => true
 
 end P2.Replay
